@@ -35,6 +35,13 @@ def coarse(okey):
     return ",".join(sorted(names)) + ("#" + ",".join(sorted(consts)) if consts else "")
 
 
+def subject(okey):
+    """the thing an obligation is about: the first field of own state mentioned by its operands (`sliced_data`, `memory_usage_bytes`,
+    `sent_packets`, `clients`), else the first method. The vetted table is matched on (function, kind, subject)."""
+    m = re.search(r"P1\(self\)\)?\.([a-z_][a-z_0-9]*)", okey) or re.search(r"\.([a-z_][a-z_0-9]*)", okey) or re.search(r"::([a-z_][a-z_0-9]*)\(", okey)
+    return m.group(1) if m else okey[:30]
+
+
 def kind_class(k):
     if k.startswith("overflow:"): return k
     return k.split(":")[0]
@@ -58,7 +65,7 @@ def _run_scope(facts_dir, scope, rounds, cache):
         okey = o["okey"]
         if kind_class(o["kind"]) == "panic": okey = okey.split(", &array")[0]     # an explicit panic is identified by its message, not by the formatted arguments
         key = f"{o['fn']}|{kind_class(o['kind'])}|{okey}"
-        e = sites.setdefault(key, dict(key=key, ckey=f"{o['fn']}|{kind_class(o['kind'])}|{coarse(okey)}", fn=o["fn"], kind=o["kind"], file=o["file"], line=o["line"], descr=o["descr"], ok=True, visits=0, tainted=False))
+        e = sites.setdefault(key, dict(key=key, ckey=f"{o['fn']}|{kind_class(o['kind'])}|{coarse(okey)}", skey=f"{o['fn']}|{kind_class(o['kind'])}|{subject(okey)}", fn=o["fn"], kind=o["kind"], file=o["file"], line=o["line"], descr=o["descr"], ok=True, visits=0, tainted=False))
         e["ok"] = e["ok"] and o["ok"]; e["visits"] += 1
         e["tainted"] = e["tainted"] or bool(o.get("tainted", True))
         if not o["ok"]: e["descr"] = o["descr"]
